@@ -321,6 +321,9 @@ func calleeClosure(prog *Program, roots []string) []string {
 		in[n] = true
 	}
 	for _, n := range roots {
+		if fs := prog.spec.Funcs[n]; fs != nil && fs.Trusted {
+			continue // a trusted summary stands for its body
+		}
 		visit(prog.funcs[n])
 	}
 	return out
